@@ -170,7 +170,18 @@ pub fn gen_project(rng: &mut Rng) -> Files {
     if rng.below(100) < pbad {
         pkg.push_str(DECL_BAD[rng.below(7)]);
     }
-    pkg.push_str("{end} {package};\n\n{package} {body} {pkg} {is}\n");
+    pkg.push_str("{end} {package};\n");
+    let body_own_file = rng.below(3) == 0;
+    let mut pkg_decl = String::new();
+    if body_own_file {
+        pkg_decl = std::mem::take(&mut pkg);
+        if rng.below(2) == 0 {
+            pkg.push_str("-- the body of {pkg}, in a file of its own\n\n");
+        }
+    } else {
+        pkg.push_str("\n");
+    }
+    pkg.push_str("{package} {body} {pkg} {is}\n");
     pkg.push_str("  {function} {f}({x} : {integer}) {return} {integer} {is}\n  {begin}\n    {return} {x} + 1;\n  {end} {function};\n");
     pkg.push_str("  {function} {f}({x} : {color_t}) {return} {integer} {is}\n  {begin}\n    {return} {color_t}'{pos}({x});\n  {end} {function};\n");
     pkg.push_str("  {function} {f3}({x} : {integer}; {c} : {color_t}; {bb} : {bit}) {return} {integer} {is}\n  {begin}\n    {return} {x} + {color_t}'{pos}({c});\n  {end} {function};\n");
@@ -178,7 +189,12 @@ pub fn gen_project(rng: &mut Rng) -> Files {
         pkg.push_str("  {procedure} {pr}({signal} {s} : {out} {integer}; {v} : {in} {integer}) {is}\n  {begin}\n    {s} <= {v};\n  {end} {procedure};\n");
     }
     pkg.push_str("{end} {package} {body};\n");
-    main.push(("pkg.vhd".to_string(), r(rng, &pkg)));
+    if body_own_file {
+        main.push(("pkg.vhd".to_string(), r(rng, &pkg_decl)));
+        main.push(("pkg_body.vhd".to_string(), r(rng, &pkg)));
+    } else {
+        main.push(("pkg.vhd".to_string(), r(rng, &pkg)));
+    }
 
     // ---- sub entity
     let mut sub = String::new();
@@ -203,7 +219,14 @@ pub fn gen_project(rng: &mut Rng) -> Files {
     if rng.below(3) == 0 {
         ent.push_str("; {unused_p} : {in} {bit}");
     }
-    ent.push_str(");\n{end} {entity};\n\n{architecture} {a} {of} {ent} {is}\n");
+    ent.push_str(");\n{end} {entity};\n");
+    let arch_own_file = rng.below(3) == 0;
+    let mut ent_decl = String::new();
+    if arch_own_file {
+        ent_decl = std::mem::take(&mut ent);
+        ent.push_str("{library} {ieee};\n{use} {ieee}.{std_logic_1164}.{all};\n{use} {work}.{pkg}.{all};\n");
+    }
+    ent.push_str("\n{architecture} {a} {of} {ent} {is}\n");
     ent.push_str("  {signal} {s1}, {s2} : {integer};\n  {signal} {r} : {rec_t};\n  {signal} {col} : {color_t};\n  {signal} {so}, {so2} : {bit};\n  {signal} {bvs} : {bit_vector}(7 {downto} 0);\n");
     if rng.below(2) == 0 {
         ent.push_str("  {component} {sub2} {is}\n    {generic} ({gw} : {integer} := 1; {gname} : {string} := \"x\"; {gflag} : {boolean} := {false});\n    {port} ({pa} : {in} {bit}; {pi} : {in} {integer}; {pc} : {in} {color_t}; {po} : {out} {bit});\n  {end} {component};\n");
@@ -234,14 +257,20 @@ pub fn gen_project(rng: &mut Rng) -> Files {
     } else {
         ent.push_str("{end} {architecture};\n");
     }
-    main.push(("ent.vhd".to_string(), r(rng, &ent)));
+    if arch_own_file {
+        main.push(("ent.vhd".to_string(), r(rng, &ent_decl)));
+        main.push(("ent_a.vhd".to_string(), r(rng, &ent)));
+    } else {
+        main.push(("ent.vhd".to_string(), r(rng, &ent)));
+    }
 
     // ---- duplicate primary unit / configuration / context in further files
-    match rng.below(8) {
+    match rng.below(6) {
         0 if pbad > 0 => main.push(("dup.vhd".to_string(), r(rng, "{entity} {ent} {is}\n{end} {entity};\n"))),
         1 => main.push((
             "cfg.vhd".to_string(),
-            r(rng, "{configuration} {cfg} {of} {ent} {is}\n  {for} {a}\n  {end} {for};\n{end} {configuration};\n"),
+            { let w = rng.below(2); r(rng, ["{configuration} {cfg} {of} {ent} {is}\n  {for} {a}\n  {end} {for};\n{end} {configuration};\n",
+                    "-- configuration of {ent}\n--\n--\n--\n--\n--\n--\n\n{configuration} {cfg} {of} {ent} {is}\n  {for} {a}\n  {end} {for};\n{end} {configuration};\n"][w]) },
         )),
         2 => main.push((
             "ctx.vhd".to_string(),
